@@ -56,6 +56,16 @@ def single_worlds(tier):
                 w = mk_single(seed, 4, chosen, tuple(i % 2 for i in range(len(chosen))), 1, base=1234400)
                 w["ps_header_type"] = ps_type
                 yield w, dict(tag=tag), None
+    # the input already carries phase: on the heterozygous SNVs (re-phased by the run) and on a two-ALT record in
+    # between, which the run never phases itself - in the output it must not sit in a phase set
+    for chosen in (((0, 2, 3),), ((0, 2), (2, 3)), ((0, 3), (2, 3))):
+        for tag in ("PS", "HP"):
+            w = mk_single(seed, 4, chosen, tuple(i % 2 for i in range(len(chosen))), 1)
+            w["chroms"][0]["variants"][1]["multi"] = True
+            w["haps"]["S1"]["chrA"][1] = [1, 2]
+            w["ps_header_type"] = "Integer"
+            w["prephased"] = True
+            yield w, dict(tag=tag), None
     # selection-active slice: three copies of each read, tiny coverage cap
     for k in (3, 4) + ((5,) if T else ()):
         subs = subsets(k)
@@ -239,6 +249,17 @@ def judge(inst):
         txt = open(paths["vcf"]).read()
         with open(paths["vcf"], "w") as f:
             f.write(txt.replace("##FORMAT=<ID=GT", '##FORMAT=<ID=PS,Number=1,Type=%s,Description="Phase set">\n##FORMAT=<ID=GT' % world["ps_header_type"], 1))
+    if world.get("prephased"):
+        pv = synth.parse_vcf(paths["vcf"])
+        lines = list(pv["header"]) + ["\t".join(["#CHROM", "POS", "ID", "REF", "ALT", "QUAL", "FILTER", "INFO", "FORMAT"] + pv["samples"])]
+        first = pv["records"][0]["pos"]
+        for rec in pv["records"]:
+            t = rec["line"].split("\t")
+            g = t[9].split(":")[0].replace("/", "|")
+            t[8], t[9] = "GT:PS", f"{g}:{first}"
+            lines.append("\t".join(t))
+        with open(paths["vcf"], "w") as f:
+            f.write("\n".join(lines) + "\n")
     parsed, traces, err = pw.run_phase(paths, d, read_list_filename=rl, **kw)
     if err and world.get("ps_header_type") == "Float" and "non-standard type" in err:
         return [], True, False  # refused with the message meant for non-Integer PS declarations
